@@ -813,96 +813,92 @@ pub async fn fork_free<S: Store>(s: &S, fx: &Fixture, backend: &str) -> Vec<(Str
 // ---------------------------------------------------------------------------------------
 // cloneable redb backend and snapshots
 
-/// Byte-vector backend.  `dead` makes every later access fail: it is set when a snapshot
-/// has been taken, so that `Database::drop` (which would otherwise write a ~1 MB allocator
-/// state table, the dominant cost of a transition) gives up immediately.
+const PAGE: usize = 4096;
+type Page = Arc<[u8; PAGE]>;
+
+/// The byte image as copy-on-write 4 KiB pages (`None` = all zero): a snapshot is a clone
+/// of the page table.
 #[derive(Clone, Debug, Default)]
-pub struct ImageBackend {
-    data: Arc<Mutex<Vec<u8>>>,
-    dead: Arc<std::sync::atomic::AtomicBool>,
+pub struct Pages {
+    len: u64,
+    pages: Vec<Option<Page>>,
 }
+
+impl Pages {
+    pub fn bytes(&self) -> usize {
+        self.pages.iter().flatten().count() * PAGE
+    }
+}
+
+/// `redb::StorageBackend` over [`Pages`]; the harness keeps a handle to take snapshots.
+#[derive(Clone, Debug, Default)]
+pub struct ImageBackend(Arc<Mutex<Pages>>);
 
 fn oob() -> io::Error {
     io::Error::new(io::ErrorKind::InvalidInput, "access beyond the end of the image")
 }
 
-impl ImageBackend {
-    fn check(&self) -> Result<(), io::Error> {
-        if self.dead.load(Ordering::Relaxed) {
-            Err(io::Error::other("snapshot taken, backend closed"))
-        } else {
-            Ok(())
-        }
-    }
-}
-
 impl redb::StorageBackend for ImageBackend {
     fn len(&self) -> Result<u64, io::Error> {
-        self.check()?;
-        Ok(self.data.lock().unwrap().len() as u64)
+        Ok(self.0.lock().unwrap().len)
     }
     fn read(&self, offset: u64, len: usize) -> Result<Vec<u8>, io::Error> {
-        self.check()?;
-        let g = self.data.lock().unwrap();
-        let o = usize::try_from(offset).map_err(|_| oob())?;
-        match o.checked_add(len) {
-            Some(e) if e <= g.len() => Ok(g[o..e].to_vec()),
-            _ => Err(oob()),
+        let g = self.0.lock().unwrap();
+        let end = offset.checked_add(len as u64).filter(|e| *e <= g.len).ok_or_else(oob)?;
+        let mut out = vec![0u8; len];
+        let mut pos = offset;
+        while pos < end {
+            let (pi, po) = ((pos / PAGE as u64) as usize, (pos % PAGE as u64) as usize);
+            let n = (PAGE - po).min((end - pos) as usize);
+            if let Some(p) = &g.pages[pi] {
+                let o = (pos - offset) as usize;
+                out[o..o + n].copy_from_slice(&p[po..po + n]);
+            }
+            pos += n as u64;
         }
+        Ok(out)
     }
     fn set_len(&self, len: u64) -> Result<(), io::Error> {
-        self.check()?;
-        self.data.lock().unwrap().resize(usize::try_from(len).map_err(|_| oob())?, 0);
+        let mut g = self.0.lock().unwrap();
+        let n = usize::try_from(len.div_ceil(PAGE as u64)).map_err(|_| oob())?;
+        g.pages.resize(n, None);
+        // bytes beyond the new end inside the last page must read as zero after a later growth
+        if len % PAGE as u64 != 0 {
+            if let Some(Some(p)) = g.pages.last_mut() {
+                Arc::make_mut(p)[(len % PAGE as u64) as usize..].fill(0);
+            }
+        }
+        g.len = len;
         Ok(())
     }
     fn sync_data(&self, _eventual: bool) -> Result<(), io::Error> {
-        self.check()
+        Ok(())
     }
     fn write(&self, offset: u64, data: &[u8]) -> Result<(), io::Error> {
-        self.check()?;
-        let mut g = self.data.lock().unwrap();
-        let o = usize::try_from(offset).map_err(|_| oob())?;
-        match o.checked_add(data.len()) {
-            Some(e) if e <= g.len() => {
-                g[o..e].copy_from_slice(data);
-                Ok(())
-            }
-            _ => Err(oob()),
+        let mut g = self.0.lock().unwrap();
+        let end = offset.checked_add(data.len() as u64).filter(|e| *e <= g.len).ok_or_else(oob)?;
+        let mut pos = offset;
+        while pos < end {
+            let (pi, po) = ((pos / PAGE as u64) as usize, (pos % PAGE as u64) as usize);
+            let n = (PAGE - po).min((end - pos) as usize);
+            let o = (pos - offset) as usize;
+            let page = g.pages[pi].get_or_insert_with(|| Arc::new([0u8; PAGE]));
+            Arc::make_mut(page)[po..po + n].copy_from_slice(&data[o..o + n]);
+            pos += n as u64;
         }
+        Ok(())
     }
 }
 
-const PAGE: usize = 4096;
-
-/// Byte image of the database between two operations (every transaction finished; the
-/// image is what a process kill would leave, redb repairs it on open), zero pages elided.
-#[derive(Debug, Default)]
-pub struct Sparse {
-    len: usize,
-    pages: Vec<(u32, Box<[u8]>)>,
-}
-
-impl Sparse {
-    fn compress(img: &[u8]) -> Sparse {
-        let pages = img
-            .chunks(PAGE)
-            .enumerate()
-            .filter(|(_, c)| c.iter().any(|b| *b != 0))
-            .map(|(i, c)| (i as u32, c.to_vec().into_boxed_slice()))
-            .collect();
-        Sparse { len: img.len(), pages }
-    }
-    fn expand(&self) -> Vec<u8> {
-        let mut v = vec![0u8; self.len];
-        for (i, p) in &self.pages {
-            let o = *i as usize * PAGE;
-            v[o..o + p.len()].copy_from_slice(p);
-        }
-        v
-    }
-    pub fn bytes(&self) -> usize {
-        self.pages.iter().map(|p| p.1.len()).sum()
-    }
+/// Drops a value while the thread is unwinding.  `redb::Database::drop` serialises its
+/// whole allocator state into a system table (about 1 MB of writes and a file growth; it
+/// was 75 % of the cost of a transition) unless `thread::panicking()`; the snapshot has
+/// been taken before and nothing reads the image afterwards, so that work is skipped.
+fn drop_during_unwind<T>(v: T) {
+    let _ = std::panic::catch_unwind(AssertUnwindSafe(move || {
+        let _v = v;
+        std::panic::resume_unwind(Box::new(()));
+    }));
 }
 
 /// A live pair of stores.
@@ -914,9 +910,9 @@ pub struct Live {
 
 pub static OPEN_NS: [AtomicU64; 3] = [AtomicU64::new(0), AtomicU64::new(0), AtomicU64::new(0)];
 
-async fn open_redb(image: Vec<u8>) -> Result<(Either, ImageBackend), String> {
+async fn open_redb(image: Pages) -> Result<(Either, ImageBackend), String> {
     let t0 = std::time::Instant::now();
-    let backend = ImageBackend { data: Arc::new(Mutex::new(image)), dead: Default::default() };
+    let backend = ImageBackend(Arc::new(Mutex::new(image)));
     let db = redb::Database::builder()
         .create_with_backend(backend.clone())
         .map_err(|e| format!("redb open: {e}"))?;
@@ -930,21 +926,20 @@ async fn open_redb(image: Vec<u8>) -> Result<(Either, ImageBackend), String> {
 
 impl Live {
     pub async fn fresh() -> Result<Live, String> {
-        let (redb, backend) = open_redb(vec![]).await?;
+        let (redb, backend) = open_redb(Pages::default()).await?;
         Ok(Live { mem: EitherStore::Left(InMemoryStore::new()), redb, backend })
     }
-    /// Takes the snapshots (all operations have been awaited, so no transaction is open)
-    /// and discards the live objects.
-    pub async fn freeze(self) -> (Arc<Either>, Arc<Sparse>) {
+    /// Takes the snapshots (all operations have been awaited, so no transaction is open:
+    /// the image is what a process kill between two operations leaves; redb repairs it on
+    /// open) and discards the live objects.
+    pub async fn freeze(self) -> (Arc<Either>, Arc<Pages>) {
         let Live { mem, redb, backend } = self;
-        backend.dead.store(true, Ordering::Relaxed);
-        let img = std::mem::take(&mut *backend.data.lock().unwrap());
-        let _ = call(async move { drop(redb) }).await;
-        (Arc::new(mem), Arc::new(Sparse::compress(&img)))
+        let img = backend.0.lock().unwrap().clone();
+        drop_during_unwind(redb);
+        (Arc::new(mem), Arc::new(img))
     }
     pub async fn discard(self) {
-        self.backend.dead.store(true, Ordering::Relaxed);
-        let _ = call(async move { drop(self.redb) }).await;
+        drop_during_unwind(self.redb);
     }
 }
 
@@ -961,7 +956,7 @@ pub enum Which {
 /// A state of the search: snapshots of both stores, the model, cached observations.
 pub struct St {
     mem: Arc<Either>,
-    redb: Arc<Sparse>,
+    redb: Arc<Pages>,
     pub model: Model,
     obs_mem: Arc<Obs>,
     obs_redb: Arc<Obs>,
@@ -1024,7 +1019,7 @@ impl Env {
 
     async fn thaw(&self, st: &St) -> Result<Live, String> {
         let mem = st.mem.left().expect("left").async_clone().await;
-        let (redb, backend) = open_redb(st.redb.expand()).await?;
+        let (redb, backend) = open_redb((*st.redb).clone()).await?;
         Ok(Live { mem: EitherStore::Left(mem), redb, backend })
     }
 
@@ -1147,7 +1142,7 @@ impl Env {
             _ => &[],
         };
         let both_failed = got_mem.failed() && got_redb.failed();
-        let mut next_snap: Option<(Arc<Either>, Arc<Sparse>)> = None;
+        let mut next_snap: Option<(Arc<Either>, Arc<Pages>)> = None;
         if both_failed && unchanged && want != Kind::Ok {
             if !corrected.is_empty() {
                 // run the correction on the very objects that refused the bad batch
